@@ -97,6 +97,10 @@ func (r Rule) Matches(p []string) bool {
 	return r.matchWhole(p)
 }
 
+// MatchesItself reports whether the rule's pattern matches the path p
+// itself (for a DirOnly rule: p is the directory the rule selects).
+func (r Rule) MatchesItself(p []string) bool { return r.matchWhole(p) }
+
 func (r Rule) matchWhole(p []string) bool {
 	if r.Anchored {
 		return globSegs(r.Segs, p)
